@@ -6,8 +6,9 @@
 #define VERIF_CONTRACTS_BASIC_LINES_H
 
 #define MON_NEEDLE_INDEX(n) ((n) == 0xED ? 0 : (n) == 0xFD ? 1 : (n) == 0xE3 ? 2 : 3)
-#define G_DIAG_ROOM (g_diag < (1u << 30) && g_wfail < (1u << 30))
-#define G_DIAG_ROOM_L3 (g_diag < (1u << 29) && g_wfail < (1u << 29))
+/* g_diag is a 64-bit event counter; every contract bounds its growth, entries require room */
+#define G_DIAG_ROOM (g_diag < (1ul << 62))
+#define G_DIAG_ROOM_L3 (g_diag < (1ul << 61))
 #define INDENT_BOUND (1 << 27)
 
 static bool print_target_line_number(unsigned char b1, unsigned char b2, unsigned char b3)
@@ -16,9 +17,10 @@ __CPROVER_requires(SPEC_CLASS[mon_data[mon_i]] == CL_LINENUM)
 __CPROVER_requires(b1 == mon_data[mon_i + 1] && b2 == mon_data[mon_i + 2] && b3 == mon_data[mon_i + 3])
 __CPROVER_requires(G_DIAG_ROOM)
 __CPROVER_assigns(G)
+__CPROVER_ensures(g_diag >= __CPROVER_old(g_diag) && g_diag <= __CPROVER_old(g_diag) + 2)
 __CPROVER_ensures(__CPROVER_return_value ==> (mon_phase == PH_TOKENS && mon_i == __CPROVER_old(mon_i) + 4 && !mon_q))
 __CPROVER_ensures(__CPROVER_return_value ==> (g_wfail == __CPROVER_old(g_wfail) && g_diag == __CPROVER_old(g_diag)))
-__CPROVER_ensures(!__CPROVER_return_value ==> (g_wfail > __CPROVER_old(g_wfail) && g_diag > __CPROVER_old(g_diag) && mon_i == __CPROVER_old(mon_i)))
+__CPROVER_ensures(!__CPROVER_return_value ==> (g_wfail != __CPROVER_old(g_wfail) && g_diag > __CPROVER_old(g_diag) && mon_i == __CPROVER_old(mon_i)))
 __CPROVER_ensures(g_lines_listed == __CPROVER_old(g_lines_listed))
 ;
 
@@ -39,6 +41,7 @@ __CPROVER_requires(*input == mon_data + mon_i + 1 && *len == mon_len - mon_i - 1
 __CPROVER_requires(m == &SPEC_MAP && G_DIAG_ROOM)
 __CPROVER_requires(0 <= file_pos && file_pos <= (1l << 41))
 __CPROVER_assigns(*input, *len, G)
+__CPROVER_ensures(g_diag >= __CPROVER_old(g_diag) && g_diag <= __CPROVER_old(g_diag) + 6)
 /* success: exactly the bytes of one token were consumed and exactly its expansion was listed
    (the event itself is checked by the monitor when it happens) */
 __CPROVER_ensures(__CPROVER_return_value ==>
@@ -54,7 +57,7 @@ __CPROVER_ensures((!__CPROVER_return_value && g_wfail == __CPROVER_old(g_wfail))
                   (mon_i == __CPROVER_old(mon_i) && g_out_events == __CPROVER_old(g_out_events) &&
                    mon_phase == PH_TOKENS && !mon_q && mon_reject_ok && SPEC_TOKEN_BAD_AT(mon_i, 0)))
 /* C03 completeness: a token the specification lists is never rejected */
-__CPROVER_ensures((!__CPROVER_return_value) ==> (g_wfail > __CPROVER_old(g_wfail) || SPEC_TOKEN_BAD_AT(__CPROVER_old(mon_i), 0)))
+__CPROVER_ensures((!__CPROVER_return_value) ==> (g_wfail != __CPROVER_old(g_wfail) || SPEC_TOKEN_BAD_AT(__CPROVER_old(mon_i), 0)))
 __CPROVER_ensures(g_lines_listed == __CPROVER_old(g_lines_listed))
 ;
 
@@ -77,6 +80,7 @@ __CPROVER_requires(fmon_on ==> (fmon_phase == FPH_LINE_READY && fmon_lines == g_
                                 (const void *)data == g_last_fread_dst && g_last_fread_n >= orig_len &&
                                 (fmon_gk < orig_len ==> (unsigned char)data[fmon_gk] == g_file[fmon_body + fmon_gk])))
 __CPROVER_assigns(*indent, G)
+__CPROVER_ensures(g_diag >= __CPROVER_old(g_diag) && g_diag <= __CPROVER_old(g_diag) + 8)
 /* C03: returns true only after the monitor has seen the complete listing of the line */
 __CPROVER_ensures(__CPROVER_return_value ==> (mon_phase == PH_DONE && mon_i == mon_len))
 __CPROVER_ensures(__CPROVER_return_value ==> (*indent == MON_INDENT_OUT && mon_indent_run == MON_INDENT_OUT))
@@ -105,6 +109,7 @@ __CPROVER_ensures(*indent >= __CPROVER_old(*indent) - 4 * (int)orig_len && *inde
   __CPROVER_requires(G_DIAG_ROOM_L3 && !g_read_error_happened)
 
 #define L3_ENSURES \
+  __CPROVER_ensures(g_diag >= __CPROVER_old(g_diag) && g_diag <= __CPROVER_old(g_diag) + 16) \
   /* C09(i): success only on a complete, well-framed program, every framed line listed once */ \
   __CPROVER_ensures(__CPROVER_return_value ==> (fmon_phase == FPH_DONE && g_lines_listed == fmon_lines)) \
   /* C11 */ \
@@ -117,12 +122,14 @@ __CPROVER_ensures(*indent >= __CPROVER_old(*indent) - 4 * (int)orig_len && *inde
                      (fmon_phase == FPH_LINE_READY && mon_reject_ok)))
 
 bool decode_big_endian_program(FILE *f, const char *filename, const struct expansion_map *m, int listo)
+__CPROVER_requires(SPEC_BIG_ENDIAN)      /* doc/bbcbasic.5: 6502, 32016, ARM, Mac, PDP11 */
 L3_REQUIRES
 __CPROVER_assigns(L3_GHOST_FRAME)
 L3_ENSURES
 ;
 
 bool decode_little_endian_program(FILE *f, const char *filename, const struct expansion_map *m, int listo)
+__CPROVER_requires(!(SPEC_BIG_ENDIAN))   /* doc/bbcbasic.5: Z80, 8086, Windows */
 L3_REQUIRES
 __CPROVER_assigns(L3_GHOST_FRAME)
 L3_ENSURES
